@@ -374,6 +374,66 @@ def clamped_grid(i: int) -> bool:
         return make_typed("Uint8ClampedArray", float)(x)
 
 
+VIEW_FMT = {"Uint8Array": ("B", 1), "Int8Array": ("b", 1), "Int16Array": ("h", 2), "Uint16Array": ("H", 2), "Int32Array": ("i", 4),
+            "Uint32Array": ("I", 4), "Float64Array": ("d", 8), "Float32Array": ("f", 4)}
+VIEW_VALUES = [5, 7, 0, 256, -1]
+
+
+def make_views(ka, kb):
+    """Three stores through two views of one 16-byte ArrayBuffer, checked against a byte-array model after each."""
+    def h(v0, i0, x0, v1, i1, x1, v2, i2, x2):
+        steps = []
+        for n, (v, i, x) in enumerate(((v0, i0, x0), (v1, i1, x1), (v2, i2, x2))):
+            # first store through view A, second through view B, third through either
+            views = [0] if n == 0 else [1] if n == 1 else [0, 1]
+            steps.append((pick(v, views), pick(i, [0, 1]), pick(x, VIEW_VALUES)))
+        with NoTracing():
+            import struct
+            from ..jsrun import eval_concrete
+            kinds = [ka, kb]
+            model = bytearray(16)
+            lines = ["var buf = new ArrayBuffer(16); var V = [new %s(buf), new %s(buf)]; var O = [];" % (ka, kb)]
+            want = []
+            for (v, i, x) in steps:
+                fmt, size = VIEW_FMT[kinds[v]]
+                if fmt in "df":
+                    val = float(x)
+                else:
+                    bits = size * 8
+                    val = A.to_int_n(x if not isinstance(x, float) else x, bits, fmt.islower())
+                struct.pack_into("<" + fmt, model, i * size, val)
+                lines.append("V[%d][%d] = %r; O.push(snap());" % (v, i, x))
+                snap = []
+                for k in kinds:
+                    f2, s2 = VIEW_FMT[k]
+                    snap.append([struct.unpack_from("<" + f2, model, j * s2)[0] for j in range(16 // s2)])
+                want.append(snap)
+            src = ("function snap() { var r = []; for (var k = 0; k < 2; k++) { var e = []; for (var j = 0; j < V[k].length; j++) "
+                   "{ e.push(V[k][j]); } r.push(e); } return r; } " + " ".join(lines[:1]) + " " + " ".join(lines[1:]) + " O")
+            res = eval_concrete(src, {})
+            cover("judged")
+
+            def plain(v):
+                import microjs.values as V
+                if isinstance(v, V.JSArray):
+                    return [plain(e) for e in v._elements]
+                return v
+            got = plain(res)
+
+            def same(a, b):
+                if isinstance(a, list):
+                    return isinstance(b, list) and len(a) == len(b) and all(same(x, y) for x, y in zip(a, b))
+                if isinstance(a, float) and a != a:
+                    return isinstance(b, float) and b != b
+                return a == b and type(a) in (int, float) and type(b) in (int, float)
+            if not same(got, want):
+                return "%s/%s over one buffer, stores %r: engine %r, byte model %r" % (ka, kb, steps, got, want)
+        return True
+    h.__annotations__ = {k: int for k in ("v0", "i0", "x0", "v1", "i1", "x1", "v2", "i2", "x2")}
+    h.__annotations__["return"] = bool
+    return h
+
+
 PLAIN = {"push": ("elem", "elem"), "pop": (), "shift": (), "unshift": ("elem", "arr"), "toString": (), "join": ("pos",),
          "reverse": (), "concat": ("elem", "arr"), "indexOf": ("elem", "pos"), "lastIndexOf": ("elem", "pos"),
          "includes": ("elem", "pos"), "slice": ("pos", "pos"), "splice": ("pos", "pos", "elem")}
@@ -412,6 +472,11 @@ def harnesses():
                           functions=FNS, must_exhaust=not clamped))
         hs.append(Harness(id="C17.typed.%s.int" % kind, fn=make_typed(kind, int), bounds=["stored value: every integer |n| <= 2**53"],
                           per_path=60, budget=200, require=("judged",), group="typed arrays", functions=FNS))
+    for ka, kb, tier in (("Uint8Array", "Uint8Array", "quick"), ("Int16Array", "Uint8Array", "quick"), ("Float64Array", "Uint32Array", "quick"),
+                         ("Int32Array", "Uint16Array", "thorough"), ("Float32Array", "Uint8Array", "thorough"), ("Int8Array", "Uint32Array", "thorough")):
+        hs.append(Harness(id="C17.views.%s.%s" % (ka, kb), fn=make_views(ka, kb),
+                          bounds=["3 stores, each (view, index in {0,1}, value in %r) solver-chosen; every element of both views read after each store" % (VIEW_VALUES,)],
+                          per_path=120, budget=900, tier=tier, require=("judged",), group="buffer views", functions=FNS))
     hs.append(Harness(id="C17.typed.Uint8ClampedArray.grid", fn=clamped_grid, bounds=["stored value: index into %d boundary doubles" % len(CLAMP_GRID)],
                       per_path=60, budget=100, require=("judged",), group="typed arrays", functions=FNS))
     return hs
